@@ -570,6 +570,9 @@ def gen_dataset(rng, k):
     kind = kinds[k % len(kinds)]
     family = "billing" if k % 4 == 3 else "daily"
     profile = rng.choice(["current", "current", "legacy"]) if family == "daily" else "billing"
+    if k <= -1000:  # baselines whose best split has three components in non-sorted insertion order
+        return {"kind": "weekday_season_split", "family": "daily", "profile": "current", "seed": rng.randrange(2**31),
+                "ndays": 365, "noise": 0.0}
     if k < 0:      # reused estimator objects: -1 daily/current, -2 daily/legacy, -3 billing, then random
         family, profile = [("daily", "current"), ("daily", "legacy"), ("billing", "billing")][(-k - 1) % 3]
         seq = ["cold_heating", "warm_cooling"] if (-k - 1) < 3 or rng.random() < 0.6 else ["warm_cooling", "cold_heating"]
@@ -633,6 +636,22 @@ def build_and_fit(ds):
     import fitlib
     from opendsm.eemeter import BillingModel, DailyModel
     rng = random.Random(ds["seed"])
+    if ds["kind"] == "weekday_season_split":
+        # closed at weekends; weekdays follow a cooling regime June-September and a heating regime otherwise: the selected
+        # combination has >= 3 components whose insertion order is not the sorted one (wd-su__wd-sh_wi__we-su_sh_wi)
+        import pandas as pd
+        r = np.random.default_rng(ds["seed"])
+        n = 365
+        idx = pd.date_range("2021-01-01", periods=n, freq="D", tz="US/Central")
+        doy = idx.dayofyear.values
+        T = 55 - 28 * np.cos(2 * np.pi * (doy - 20) / 365) + r.normal(0, 4, n)
+        summer = np.isin(idx.month.values, [6, 7, 8, 9])
+        y = np.where(summer, 35 + 2.2 * np.clip(T - 68, 0, None), 60 + 1.8 * np.clip(50 - T, 0, None))
+        y = np.where(idx.dayofweek.values >= 5, 15.0, y) + r.normal(0, 0.5, n)
+        data = fitlib.daily_baseline(pd.DataFrame({"temperature": T, "observed": y}, index=idx))
+        model = DailyModel(model="legacy") if ds["profile"] == "legacy" else DailyModel()
+        model.fit(data, ignore_disqualification=True)
+        return model, data
     if ds["kind"] == "reused_object":
         # one estimator object fitted twice: first in a cold climate (heating), then in a warm one (cooling)
         model = BillingModel() if ds["family"] == "billing" else (DailyModel(model="legacy") if ds["profile"] == "legacy" else DailyModel())
@@ -662,9 +681,9 @@ def build_and_fit(ds):
     return model, data
 
 
-def stream_fits(run, n, n_reused=0):
+def stream_fits(run, n, n_reused=0, n_split=0):
     acc = {"refine": [], "curves": [], "meta": []}
-    for k in list(range(n)) + [-(j + 1) for j in range(n_reused)]:
+    for k in list(range(n)) + [-(j + 1) for j in range(n_reused)] + [-(1000 + j) for j in range(n_split)]:
         ds = gen_dataset(run.rng, k)
         try:
             model, data = build_and_fit(ds)
@@ -673,6 +692,9 @@ def stream_fits(run, n, n_reused=0):
                           "C12: fit raised %s: %s" % (type(e).__name__, e), case={"dataset": ds}, generator="c12.fits")
             continue
         run.dist("fit_dataset", "%s/%s/%s" % (ds["family"], ds["profile"], ds["kind"]))
+        keys = list(model.model.keys())
+        run.dist("selected_split", "%d component(s), %s" % (len(keys), "insertion order = sorted order" if keys == sorted(keys)
+                                                             else "insertion order differs from sorted order"))
         comps = [("fit_components", c, r) for c, r in model.fit_components.items()] + \
                 [("model", c, r) for c, r in model.model.items()]
         limits_of = {}
@@ -744,9 +766,74 @@ def stream_fits(run, n, n_reused=0):
                               "C12 %s to_dict()[%s]: stored sub-model breaks '%s'" % (ds["family"], comp, clause),
                               case={"dataset": ds, "component": comp}, observation={"doc": got, "tc": tcd},
                               generator="c12.fits")
-        run.log("fit %s (%s %s) done: %d components" % (("%d/%d" % (k + 1, n)) if k >= 0 else ("reused#%d" % -k), ds["family"],
-                                                        ds["kind"], len(comps)))
+        run.log("fit %s (%s %s) done: %d components, selected %s" % (
+            ("%d/%d" % (k + 1, n)) if k >= 0 else ("extra#%d" % -k), ds["family"], ds["kind"], len(comps), "__".join(keys)))
     flush(run, acc, "fits")
+
+
+# ------------------------------------------------------------------ _create_params_from_fit_model without fitting
+
+SPLITS = [["wd-su", "wd-sh_wi", "we-su_sh_wi"], ["we-su_sh_wi", "wd-su_sh_wi"], ["fw-wi", "fw-su", "fw-sh"],
+          ["wd-su_sh", "wd-wi", "we-su", "we-sh_wi"], ["we-wi", "we-su_sh", "wd-su_sh_wi"], ["fw-su_sh_wi"],
+          ["fw-su_wi", "fw-sh"], ["wd-su", "wd-sh", "wd-wi", "we-su", "we-sh", "we-wi"]]
+
+
+def stream_params_order(run, n):
+    """model.model set by hand from synthetic OptimizedResult objects in every insertion order (sorted, reversed, shuffled);
+    to_dict()['submodels'][key] must be the refine of the component stored under THAT key"""
+    from opendsm.eemeter import BillingModel, DailyModel
+    n_seg = settings().segment_minimum_count
+    acc = {"refine": [], "curves": [], "meta": []}
+    for k in range(n):
+        keys = list(SPLITS[k % len(SPLITS)])
+        how = k % 3
+        if how == 1:
+            keys = sorted(keys, reverse=True)
+        elif how == 2:
+            run.rng.shuffle(keys)
+        cls = BillingModel if k % 4 == 3 else DailyModel
+        model = cls()
+        comps = {}
+        for j, key in enumerate(keys):
+            ckey = run.rng.choice(KEYS[:4])
+            T, tc = make_T(run.rng, n_seg)
+            raw, info = gen_raw(run.rng, ckey, tc, False)
+            info["initial_box"] = False
+            res = build_result(ckey, raw, T, rng_seed=1000 * k + j)
+            comps[key] = (ckey, raw, T, info, res)
+        model.model = {key: comps[key][4] for key in keys}
+        model.baseline_timezone = "UTC"
+        model.disqualification, model.warnings = [], []
+        model.error = {"wRMSE": 1.0, "RMSE": 1.0, "MAE": 1.0, "CVRMSE": 0.1, "PNRMSE": 0.1}
+        model.params = model._create_params_from_fit_model()
+        model.is_fitted = True
+        doc = model.to_dict()["submodels"]
+        run.dist("params_order", "insertion order = sorted order" if keys == sorted(keys) else "insertion order differs from sorted order")
+        run.count(vlib.sha(["params_order", keys, [comps[x][1] for x in keys]]), len(keys) > 1)
+        if sorted(doc.keys()) != sorted(keys):
+            run.violation({"stream": "params_order", "clause": "one stored sub-model per fitted component", "class": "admissibility"},
+                          "C12: to_dict()['submodels'] has other keys than the fitted components", case={"keys": keys},
+                          observation={"doc_keys": list(doc.keys())}, generator="c12.params_order")
+            continue
+        for key in keys:
+            ckey, raw, T, info, res = comps[key]
+            obs, tc = process_component(run, acc, ckey, raw, T, info, res, "params_order", "hand-built %s[%s]" % (cls.__name__, key),
+                                        q=info["q"])
+            sub = doc[key]
+            c = sub["coefficients"]
+            got = {"model_type": getattr(c["model_type"], "value", c["model_type"]), "intercept": float(c["intercept"])}
+            for f in FIELDS:
+                got[f] = None if c[f] is None else float(c[f])
+            tcd = [float(sub["temperature_constraints"][z]) for z in ("T_min", "T_max", "T_min_seg", "T_max_seg")]
+            if got != obs[2] or tcd != tc or float(sub["f_unc"]) != float(res.f_unc):
+                run.violation({"stream": "params_order", "clause": "to_dict()[key] is the component fitted for that key",
+                               "class": "admissibility"},
+                              "C12 %s: to_dict()['submodels'][%s] is not the refine of the component stored under that key "
+                              "(insertion order %s)" % (cls.__name__, key, "__".join(keys)),
+                              case={"keys": keys, "key": key, "component_layout": ckey, "raw": raw, "tc": tc},
+                              observation={"doc": got, "doc_tc": tcd, "component": obs[2], "component_tc": tc},
+                              generator="c12.params_order")
+    flush(run, acc, "params_order")
 
 
 # ------------------------------------------------------------------ main
@@ -761,11 +848,13 @@ def main():
         "raw, statistics), non-trivial = layout other than tidd. fits: DailyModel/BillingModel.fit on generated baselines "
         "(both / heating-only / cooling-only / flat / inverted = peaking in mild weather / no-flat-region / weekend / outliers; 330-365 days; noise 1-20 %; current, "
         "legacy and billing profiles), plus REUSED estimator objects (one DailyModel/BillingModel fitted in a cold heating climate and "
-        "then in a warm cooling climate; oracle against the data object of the last fit); every OptimizedResult of fit_components and "
+        "then in a warm cooling climate; oracle against the data object of the last fit) and baselines whose selected split has three "
+        "components in non-sorted insertion order (closed at weekends, weekday cooling regime Jun-Sep / heating otherwise); every OptimizedResult of fit_components and "
         "model is one evaluation; the days of a component are recomputed from the data object, not read from the model. bounds: start boxes and "
         "get_bnds(x0) rows with every degenerate pattern (zero slopes -> [0,0], identical non-zero, [0,2x0], [2x0,0], reversed, "
         "negative, equal balance-point limits, identical quantiles, new_bnds=None) through the three *_update_bnds functions as "
-        "the fit functions call them; fix_identical_bnds row by row (0, powers of ten, negatives)")
+        "the fit functions call them; fix_identical_bnds row by row (0, powers of ten, negatives). params_order: model.model set by hand "
+        "from synthetic components in sorted / reversed / shuffled insertion order, _create_params_from_fit_model + to_dict()")
     run.assumptions += [
         "PARTIAL: the optimiser is an oracle with the contract 'returns a point of the box it was given' (Section hypothesis of "
         "the theorems); the contract is checked on every sampled fit only",
@@ -802,8 +891,9 @@ def main():
         stream_refine(run, run.n(2000, 60000))
         stream_bounds(run, run.n(600, 20000))
         stream_from_np(run, run.n(400, 10000))
+        stream_params_order(run, run.n(24, 600))
     if os.environ.get("C12_NOFITS") != "1":
-        stream_fits(run, run.n(10, 200), n_reused=run.n(3, 30))
+        stream_fits(run, run.n(10, 200), n_reused=run.n(3, 30), n_split=run.n(1, 12))
     run.finish()
 
 
